@@ -46,10 +46,24 @@ fn dedup_keys(mut d: Vec<(Vec<u8>, RVal)>) -> Vec<(Vec<u8>, RVal)> {
 }
 
 /// Values with unique dictionary keys (what rdest's HashMap-based BValue can represent), keys in generated order.
+/// Strings whose length sits at a digit-count boundary of the length prefix (9|10, 99|100, ... 9999999|10000000).
+pub fn boundary_len_string() -> BoxedStrategy<Vec<u8>> {
+    prop_oneof![
+        200 => prop::sample::select(vec![9usize, 10, 11, 99, 100, 101, 255, 256, 999, 1000, 1001]),
+        40 => prop::sample::select(vec![9_999usize, 10_000, 65_535, 65_536, 99_999, 100_000]),
+        4 => prop::sample::select(vec![999_999usize, 1_000_000]),
+        1 => prop::sample::select(vec![9_999_999usize, 10_000_000, 10_000_001]),
+    ]
+    .prop_flat_map(|n| (Just(n), any::<u8>()))
+    .prop_map(|(n, b)| vec![b; n])
+    .boxed()
+}
+
 pub fn rval_unique(max_str: usize) -> BoxedStrategy<RVal> {
     let leaf = prop_oneof![
-        int_strategy().prop_map(RVal::Int),
-        bytes_strategy(max_str).prop_map(RVal::Str),
+        40 => int_strategy().prop_map(RVal::Int),
+        40 => bytes_strategy(max_str).prop_map(RVal::Str),
+        1 => boundary_len_string().prop_map(RVal::Str),
     ];
     leaf.prop_recursive(5, 48, 6, |inner| {
         prop_oneof![
